@@ -29,7 +29,9 @@ CHUNK = 4
 def bounds(tier):
     return {"shapes": SH_T if tier == "thorough" else SH_Q, "coils": [2, 3, 4, 8], "calib/kernel": CK,
             "thresh": [0.02, 0.05, 0.5], "crop": [0, 0.8, 0.95, 1.1], "data": ["gaussian seeds 0..3" if tier == "quick" else "gaussian seeds 0..7", "birdcage x ones", "birdcage x bump"],
-            "max_iter": [30, 100], "dtype": ["complex64", "complex128"]}
+            "max_iter": [30, 100], "dtype": ["complex64", "complex128"],
+            "mixed pad/crop": "8 non-square shapes whose calibration width lies between the two axis lengths (4 with calib**2 == voxels)",
+            "locality": "13 (shape, calib) pairs with k-space outside the centred calibration block replaced: maps must not change"}
 
 
 SH_Q = [[8, 8], [9, 10], [12, 12], [16, 16], [6, 6, 6]]
@@ -72,6 +74,24 @@ def gen_cases(tier, seed):
                 for lay in ("coil-stride", "fortran"):
                     cases.append(dict(kind="layout", shape=sh, nc=nc, calib=cw, kernel=3, thresh=0.02, crop=0.8, data=data, dtype="c128",
                                       max_iter=30, layout=lay))
+    # non-square images whose calibration width exceeds one axis and not the other (the calibration block is zero-padded
+    # along one axis and cropped along the other), including widths with calib**ndim == number of voxels
+    for sh, cw, kw in (([9, 16], 12, 3), ([8, 18], 12, 3), ([16, 9], 12, 4), ([16, 36], 24, 6), ([18, 32], 24, 6), ([12, 20], 16, 4),
+                       ([4, 16], 8, 3), ([2, 8], 4, 3)):
+        for nc in (2, 4):
+            for data in ("g0", "ones", "bump"):
+                for crop in (0.8, 0.95):
+                    cases.append(dict(kind="espirit", shape=sh, nc=nc, calib=cw, kernel=kw, thresh=0.02, crop=crop, data=data,
+                                      dtype="c128" if sh[0] < 16 else "c64", max_iter=30))
+                if data != "bump":
+                    # locality: the maps are a function of the centred calib_width block of k-space only
+                    cases.append(dict(kind="locality", shape=sh, nc=nc, calib=cw, kernel=kw, thresh=0.02, crop=0.8, data=data,
+                                      dtype="c128", max_iter=30))
+    for sh, cw, kw in (([12, 12], 8, 3), ([9, 10], 6, 3), ([6, 6, 6], 4, 3), ([4, 4, 9], 6, 3), ([3, 3, 8], 4, 2)):
+        for nc in (2, 4):
+            for data in ("g0", "ones"):
+                cases.append(dict(kind="locality", shape=sh, nc=nc, calib=cw, kernel=kw, thresh=0.02, crop=0.8, data=data,
+                                  dtype="c128", max_iter=30))
     # threshold ties: crop set EXACTLY to the eigenvalue of one voxel (taken from a first run with crop=0);
     # "zero where the eigenvalue does not exceed the crop threshold" => that voxel must be zero
     for sh in ([8, 8], [9, 10]):
@@ -132,6 +152,20 @@ def run_case(case, seed):
             ksp = np.asfortranarray(ksp)
         k0 = ksp.copy()
         when = "non-contiguous k-space"
+    if case["kind"] == "locality":
+        # reference window: index n//2 of an axis lands on index calib//2 of the block (the documented centre alignment)
+        inside = np.ones(sh, dtype=bool)
+        for d, n in enumerate(sh):
+            j = np.arange(n) - n // 2 + case["calib"] // 2
+            ok = (j >= 0) & (j < case["calib"])
+            inside &= ok.reshape([-1 if a == d else 1 for a in range(len(sh))])
+        other = ksp.copy()
+        r = np.random.default_rng(5 + seed)
+        other[:, ~inside] = -2 * other[:, ~inside] + (r.standard_normal((nc, int((~inside).sum()))) + 0.5j)
+        np.random.seed((seed + 99) % 2 ** 32)
+        m_o, e_o = mr.app.EspiritCalib(other, calib_width=case["calib"], thresh=case["thresh"], kernel_width=case["kernel"],
+                                       crop=crop, max_iter=case["max_iter"], output_eigenvalue=True, show_pbar=False).run()
+        when = "k-space outside the calibration block changed"
     np.random.seed((seed + 99) % 2 ** 32)
     mps, eig = mr.app.EspiritCalib(ksp, calib_width=case["calib"], thresh=case["thresh"], kernel_width=case["kernel"],
                                    crop=crop, max_iter=case["max_iter"], output_eigenvalue=True, show_pbar=False).run()
@@ -187,6 +221,13 @@ def run_case(case, seed):
         if not (np.allclose(np.asarray(mps), np.asarray(m_c), atol=1e-9) and np.allclose(np.asarray(eig).ravel(), np.asarray(e_c).ravel(), atol=1e-9)):
             V("layout-invariance", "maps for a %s k-space view differ from the maps for its contiguous copy (max diff %.3g)" % (
                 case["layout"], float(np.abs(np.asarray(mps) - np.asarray(m_c)).max())))
+    if case["kind"] == "locality" and not viol:
+        if (~inside).sum() == 0:
+            raise RuntimeError("locality case without any k-space sample outside the calibration block")
+        dm = float(np.abs(np.asarray(mps) - np.asarray(m_o)).max())
+        if not dm <= 1e-9:
+            V("calibration-locality", "changing only the %d k-space samples outside the centred calib_width block changed the maps by %.3g" % (
+                int((~inside).sum()), dm))
     if ksp.tobytes() != k0.tobytes():
         V("input-mutated", "k-space array was modified")
     nontrivial = kept is not None and bool(kept.any())
